@@ -234,7 +234,7 @@ class M(Hooks):
 
 def budget(tier):
     if tier == 'quick':
-        return dict(examples=4000, wall=100)
+        return dict(examples=8000, wall=100)
     return dict(examples=120000, wall=1500)
 
 
